@@ -46,12 +46,14 @@ class Assembly:
         # curved edges: list of [owner cell idx, corner_1, corner_2, [dx,dy,dz]] - the owner operation gets a
         # three-point arc between its corners c1,c2 (a block edge) through their mid point displaced by the offset
         self.arcs = []
+        # vertices moved AFTER Mesh.assemble() and before writing: list of [vertex index, [dx,dy,dz]]
+        self.moves = []
 
     def to_json(self):
         return dict(cells=[list(c) for c in self.cells], perms=self.perms,
                     chops=[[b, a, ch] for (b, a), ch in sorted(self.chops.items())],
                     jitter=[[list(k), list(v)] for k, v in sorted(self.jitter.items())], order=self.order,
-                    **({"arcs": self.arcs} if self.arcs else {}))
+                    **({"arcs": self.arcs} if self.arcs else {}), **({"moves": self.moves} if self.moves else {}))
 
     @staticmethod
     def from_json(d):
@@ -59,6 +61,7 @@ class Assembly:
                        {(b, a): ch for b, a, ch in d["chops"]},
                        {tuple(k): tuple(v) for k, v in d["jitter"]}, d.get("order"))
         asm.arcs = [list(a) for a in d.get("arcs", [])]
+        asm.moves = [list(a) for a in d.get("moves", [])]
         return asm
 
     def points(self, ci):
